@@ -412,6 +412,13 @@ class FuncFacts:
             return all(FuncFacts._pure_predicate(v) for v in e.values)
         if isinstance(e, ast.UnaryOp) and isinstance(e.op, ast.Not):
             return FuncFacts._pure_predicate(e.operand)
+        if isinstance(e, ast.Name):
+            return e.id not in ('self', 'cls')   # the truth value of a local (``not finished and ...``)
+        if isinstance(e, ast.Attribute):
+            r = e
+            while isinstance(r, ast.Attribute):
+                r = r.value
+            return isinstance(r, ast.Name)       # ... or of an attribute / plain property read (``self.dynamic and create_dynamically``)
         if isinstance(e, ast.Compare):
             # (``x in mapping`` asks the mapping: pure for the containers of this code base -- dicts, lists, port namespaces)
             return all(isinstance(o, (ast.Is, ast.IsNot, ast.Eq, ast.NotEq, ast.In, ast.NotIn)) for o in e.ops) and all(isinstance(x, (ast.Name, ast.Constant)) for x in [e.left] + e.comparators)
